@@ -46,6 +46,10 @@ pub enum Auth {
     Signed { key: u8, algo: u8 },
     /// signed with key then one HMAC byte changed
     Corrupted { key: u8, algo: u8 },
+    /// one integrity attribute (algo 0 = MESSAGE-INTEGRITY, 1 = -SHA256) whose value has `len`
+    /// bytes: the leading bytes of the right HMAC, filler beyond it. Lengths the RFC does not allow
+    /// are accepted by the parser and must make the response fail validation.
+    OddLength { key: u8, algo: u8, len: u8 },
 }
 
 #[derive(Debug, Clone, PartialEq, Eq, Hash, Serialize, Deserialize)]
@@ -342,6 +346,19 @@ pub fn response_bytes(id: u128, error: bool, auth: Auth, fp: bool) -> Vec<u8> {
     }
     match auth {
         Auth::Unsigned => {}
+        Auth::OddLength { key, algo, len } => {
+            let k = creds_k(key).key();
+            let len = len as usize;
+            let start = buf.len();
+            let (ty, mac) = if algo % 2 == 0 {
+                (T_MI, crate::refimpl::hmac_sha1(&k, &refstun::hmac_input(&buf, start, len)).to_vec())
+            } else {
+                (T_SHA256, crate::refimpl::hmac_sha256(&k, &refstun::hmac_input(&buf, start, len)).to_vec())
+            };
+            let mut v = mac;
+            v.resize(len, 0x5a);
+            refstun::push_tlv(&mut buf, ty, &v, 0);
+        }
         Auth::Signed { key, algo } | Auth::Corrupted { key, algo } => {
             let k = creds_k(key).key();
             let first = buf.len();
@@ -1068,6 +1085,22 @@ impl<'h> Interp<'h> {
             }
             (Some(true), other) => {
                 let tx = &self.model.outstanding[&tid];
+                let what = match other {
+                    HandleStunReply::Drop => "Drop",
+                    _ => "IncomingStun",
+                };
+                // a dropped message must leave the transaction where it was: if the transaction is gone
+                // although nothing was delivered, it ended in none of the three outcomes (C05)
+                if matches!(other, HandleStunReply::Drop) && self.agent.request_transaction(TransactionId::from(tid)).is_none() {
+                    return Err(self.d(
+                        "C05",
+                        "c05-lost",
+                        format!(
+                            "handle_stun answered Drop to a response for the outstanding transaction {:#x} (cancelled: {}, retransmissions cancelled: {}) and the transaction is gone: it ended without being delivered, timed out or reported cancelled",
+                            tid, tx.recv_cancelled, tx.send_cancelled
+                        ),
+                    ));
+                }
                 return Err(self.d(
                     "C07",
                     "c07-genuine-dropped",
@@ -1077,10 +1110,7 @@ impl<'h> Interp<'h> {
                         tx.had_integrity,
                         self.model.remote.is_some(),
                         auth,
-                        match other {
-                            HandleStunReply::Drop => "Drop",
-                            _ => "IncomingStun",
-                        }
+                        what
                     ),
                 ));
             }
@@ -1311,8 +1341,10 @@ impl<'h> Interp<'h> {
 
 pub fn process_origin() -> Instant {
     static O: std::sync::OnceLock<Instant> = std::sync::OnceLock::new();
-    // the only clock read of the harness: there is no other way to construct an Instant
-    *O.get_or_init(|| Instant::now() + Duration::from_secs(1000))
+    // the only clock read of the harness: there is no other way to construct an Instant.
+    // Close to the real clock on purpose: a stray Instant::now() inside the agent then lands in
+    // the middle of the simulated schedules instead of far before them.
+    *O.get_or_init(|| Instant::now() + Duration::from_secs(2))
 }
 
 pub fn run_history(h: &History) -> Result<Summary, Disc> {
@@ -1389,6 +1421,8 @@ fn auth_strategy() -> BoxedStrategy<Auth> {
         2 => Just(Auth::Unsigned),
         5 => (0u8..3, 0u8..3).prop_map(|(key, algo)| Auth::Signed { key, algo }),
         2 => (0u8..2, 0u8..3).prop_map(|(key, algo)| Auth::Corrupted { key, algo }),
+        2 => (0u8..2, 0u8..2, prop_oneof![Just(0u8), Just(4), Just(12), Just(16), Just(19), Just(20), Just(21), Just(24), Just(28), Just(32), Just(33), Just(36), 0u8..=44])
+            .prop_map(|(key, algo, len)| Auth::OddLength { key, algo, len }),
     ]
     .boxed()
 }
@@ -1440,6 +1474,7 @@ pub fn op_strategy(p: Profile) -> BoxedStrategy<Op> {
         .boxed(),
         Profile::Timing => prop_oneof![
             3 => send, 5 => send_cfg, 10 => advance, 8 => Just(Op::Poll), 2 => Just(Op::Drain), 1 => response, 1 => cancel_r, 1 => cancel,
+            2 => configure,
         ]
         .boxed(),
         Profile::Auth => prop_oneof![
